@@ -543,9 +543,47 @@ def m_str_split(it, name, a):
     return IterV('owned', parts, 0)
 
 
+# char::is_whitespace (Unicode White_Space) and u8::is_ascii_whitespace, as documented by std
+_WS_UNICODE = [(0x09, 0x0d), (0x20, 0x20), (0x85, 0x85), (0xa0, 0xa0), (0x1680, 0x1680), (0x2000, 0x200a), (0x2028, 0x2029),
+               (0x202f, 0x202f), (0x205f, 0x205f), (0x3000, 0x3000)]
+_WS_ASCII = [(0x09, 0x0a), (0x0c, 0x0d), (0x20, 0x20)]
+
+
+def _is_ws(it, c, ranges):
+    if isinstance(c, int):
+        return any(lo <= c <= hi for lo, hi in ranges)
+    return it.decide(z3.Or([z3.And(z3.UGE(c, lo), z3.ULE(c, hi)) if lo != hi else c == lo for lo, hi in ranges]))
+
+
 @model(exact=('core::str::<impl str>::split_whitespace', 'core::str::<impl str>::split_ascii_whitespace'))
 def m_str_split_ws(it, name, a):
-    return IterV('owned', conc(S(it, a[0])).split(), 0)
+    ranges = _WS_ASCII if _meth(name) == 'split_ascii_whitespace' else _WS_UNICODE
+    parts = []
+    cur = []
+    for c in chars_of(S(it, a[0])):
+        if _is_ws(it, c, ranges):
+            if cur:
+                parts.append(normalize(cur))
+            cur = []
+        else:
+            cur.append(c)
+    if cur:
+        parts.append(normalize(cur))
+    return IterV('owned', parts, 0)
+
+
+@model(r'alloc::slice::<impl \[.*\]>::(join|concat)(::<.*>)?', r'<\[.*\] as (alloc::slice::)?(Join|Concat)<.*>>::(join|concat)',
+       exact=('alloc::slice::<impl [T]>::join', 'alloc::slice::<impl [T]>::concat'))
+def m_slice_join(it, name, a):
+    v = it.deref(a[0])
+    items = v.items if hasattr(v, 'items') else list(v)
+    sep = S(it, a[1]) if ('join' in name.split('::')[-1] or name.rstrip('>').endswith('join')) and len(a) > 1 else ''
+    out = ''
+    for i, x in enumerate(items):
+        if i:
+            out = sconcat(out, sep)
+        out = sconcat(out, S(it, x))
+    return out
 
 
 @model(exact=('core::str::<impl str>::lines',))
